@@ -524,6 +524,43 @@ Definition judge_preds (k : pkind) (adds : list (node * N * hint * hint)) (o ev 
   Some (judge cfg_plain (decls_of cfg_plain (pred_ops k adds)) out
         && texts_eqb ev (match out with Sorted use => eval_order use | _ => [] end)).
 
+(* ---- PredicateList.make on a predicate scenario (tag 8): the keyword values of one add_view / add_route / add_subscriber *)
+Definition get_pval (v : val) : option pval :=
+  match v with VI z => Some (if Z.ltb z 0 then PNot (Z.to_N (- z)) else PV (Z.to_N z)) | _ => None end.
+Definition get_pvals (v : val) : option pvals :=
+  match v with
+  | VL [VI 0%Z; x] => olet x := get_pval x in Some (VOne x)
+  | VL [VI 1%Z; VL l] => olet l := map_opt get_pval l in Some (VSeq l)
+  | _ => None
+  end.
+Definition get_kwitem (v : val) : option (node * pvals) :=
+  match v with VL [VT n; x] => olet x := get_pvals x in Some (n, x) | _ => None end.
+Fixpoint put_pred_aux (notted : bool) (p : pred) : val :=
+  match p with
+  | Pred n f (PV x) => VL [VT n; vN f; vN x; vbool notted; vbool false]
+  | Pred n f (PNot x) => VL [VT n; vN f; vN x; vbool notted; vbool true]
+  | NottedP q => put_pred_aux true q
+  end.
+Definition put_make (r : make_result) : val :=
+  match r with
+  | MkOk order ps ph => VL [VI 0; VI order; VL (map (put_pred_aux false) ps); VL (map (put_pred_aux false) ph)]
+  | MkUnknown names => VL [VI 1; vtexts names]
+  | MkSortError _ => VL [VI 2]
+  end.
+(* created predicates in order, first occurrence of each instrumented (id > 0) name: what is evaluated, in which order *)
+Fixpoint dedupe (l : list node) : list node :=
+  match l with [] => [] | x :: r => x :: filter (fun y => negb (text_eqb y x)) (dedupe r) end.
+Fixpoint pred_factory (p : pred) : N := match p with Pred _ f _ => f | NottedP q => pred_factory q end.
+Definition make_eval_order (r : make_result) : list node :=
+  match r with
+  | MkOk _ ps _ => dedupe (map pred_name (filter (fun p => negb (N.eqb (pred_factory p) 0)) ps))
+  | _ => []
+  end.
+Definition make_obs (s : sorter) (kw : list (node * pvals)) : val * val * val :=
+  let o := sorted s in
+  let r := gen_pl_make pl_max_order o kw in
+  (put_outcome o, vtexts (make_eval_order r), put_make r).
+
 Definition run_C18 (v : val) : val :=
   ret_or_bad (
     match v with
@@ -553,5 +590,9 @@ Definition run_C18 (v : val) : val :=
     | VL [VI 7%Z; k; adds; VL [o; ev]] =>
         olet k := get_pkind k in olet adds := get_list_of get_tadd adds in
         olet b := judge_preds k adds o ev in Some (vbool b)
+    | VL [VI 8%Z; k; adds; kw] =>
+        olet k := get_pkind k in olet adds := get_list_of get_tadd adds in olet kw := get_list_of get_kwitem kw in
+        let '(o, ev, mk) := make_obs (preds_scenario k adds) kw in
+        Some (VL [o; ev; mk])
     | _ => None
     end).
